@@ -1,5 +1,355 @@
-//! Part 2: histories (stub).
+//! Part 2: histories of failing and succeeding evaluations on one long-lived VM.
+use crate::prims::{error_class, install_panic_hook, render};
+use gluon::vm::api::{Hole, OpaqueValue};
+use gluon::vm::stack::State;
+use gluon::vm::thread::ThreadInternal;
+use gluon::{RootedThread, Thread, ThreadExt};
 use gv::{Args, Out};
-pub fn child_main() {}
-pub fn run(_args: &Args, _out: &mut Out) {}
-pub fn replay(_out: &mut Out, _case: &serde_json::Value) {}
+use std::io::Read;
+use std::time::Duration;
+
+const MAX_STACK: u32 = 60_000;
+const MEM_LIMIT_EXTRA: usize = 8 << 20;
+
+/// (kind, fails?, program)
+pub fn kinds() -> Vec<(&'static str, bool, String)> {
+    let deep = |d: u32| {
+        format!(
+            "let p = import! std.prim\nlet a = import! std.array.prim\nrec let f n xs = if n #Int== 0 then p.error \"boom\" else 1 #Int+ f (n #Int- 1) (a.append xs [n, n, n, n])\nf {} [0]\n",
+            d
+        )
+    };
+    vec![
+        ("ok-int", false, "1 #Int+ 2\n".to_string()),
+        (
+            "ok-rec",
+            false,
+            "rec let f n = if n #Int== 0 then 0 else n #Int+ f (n #Int- 1)\nf 300\n".to_string(),
+        ),
+        (
+            "ok-array",
+            false,
+            "let a = import! std.array.prim\na.len (a.append [1, 2, 3] [4, 5])\n".to_string(),
+        ),
+        ("ok-string", false, "let s = import! std.string.prim\ns.append \"ab\" \"cd\"\n".to_string()),
+        ("err-deep-10", true, deep(10)),
+        ("err-deep-50", true, deep(50)),
+        ("err-deep-200", true, deep(200)),
+        (
+            "err-prim",
+            true,
+            "let a = import! std.array.prim\n1 #Int+ a.index [1, 2] 5\n".to_string(),
+        ),
+        ("err-arith", true, "let f x = 1 #Int+ (x #Int/ 0)\nf 5\n".to_string()),
+        (
+            "stack-overflow",
+            true,
+            "rec let f n = if n #Int== 0 then 0 else 1 #Int+ f (n #Int- 1)\nf 100000000\n".to_string(),
+        ),
+        (
+            "oom",
+            true,
+            "let a = import! std.array.prim\nrec let f n xs = if n #Int== 0 then a.len xs else f (n #Int- 1) (a.append xs xs)\nf 40 [1, 2, 3, 4, 5, 6, 7, 8]\n"
+                .to_string(),
+        ),
+        ("type-error", true, "1 #Int+ \"a\"\n".to_string()),
+        ("parse-error", true, "let x = in\n".to_string()),
+    ]
+}
+
+fn new_vm() -> RootedThread {
+    let vm = gv::vm::new_vm();
+    {
+        let mut db = vm.get_database_mut();
+        db.set_implicit_prelude(false);
+        db.run_io(true);
+    }
+    // load the modules the programs import, so that every VM starts from the same state
+    for m in ["std.prim", "std.array.prim", "std.string.prim"] {
+        let _ = vm.run_expr::<OpaqueValue<&Thread, Hole>>("warm", &format!("let _ = import! {}\n()", m));
+    }
+    vm.context().set_max_stack_size(MAX_STACK);
+    vm.collect();
+    let base = vm.allocated_memory();
+    vm.set_memory_limit(base + MEM_LIMIT_EXTRA);
+    vm
+}
+
+fn eval(vm: &Thread, src: &str) -> String {
+    let r = gv::catch(|| match vm.run_expr::<OpaqueValue<&Thread, Hole>>("h", src) {
+        Ok((v, _)) => format!("ok:{}", render(v.get_variant(), 0)),
+        Err(e) => {
+            let msg = e.to_string();
+            let l = msg.lines().next().unwrap_or("").chars().take(60).collect::<String>();
+            // numbers in messages (limits, sizes) are not part of the comparison
+            let mut m = String::new();
+            for c in l.chars() {
+                if c.is_ascii_digit() {
+                    if !m.ends_with('#') {
+                        m.push('#');
+                    }
+                } else {
+                    m.push(c);
+                }
+            }
+            let l = m;
+            format!("{}:{}", error_class(&e), l)
+        }
+    });
+    r.unwrap_or_else(|p| format!("panic:{}", p.lines().next().unwrap_or("")))
+}
+
+/// (frames, values, allocated bytes) of the thread at rest
+fn measure(vm: &Thread) -> (usize, usize, usize) {
+    let (fr, vals) = {
+        let mut ctx = vm.context();
+        let fl = ctx.frame_level();
+        let sf = ctx.stack_frame::<State>();
+        let v = sf.len() as usize + sf.frame().offset as usize;
+        (fl, v)
+    };
+    (fr, vals, vm.allocated_memory())
+}
+
+/// `--child hist`: stdin = `seed tier`; prints the observations.
+pub fn child_main() {
+    install_panic_hook();
+    let mut input = String::new();
+    std::io::stdin().read_to_string(&mut input).unwrap();
+    let mut it = input.split_whitespace();
+    let seed: u64 = it.next().unwrap().parse().unwrap();
+    let thorough = it.next() == Some("thorough");
+    let replay: Option<Vec<usize>> = it.next().map(|s| s.split(',').filter_map(|x| x.parse().ok()).collect());
+    let ks = kinds();
+    // 1. leak probes: the same failing program five times on one VM, collecting after every run
+    let mut leak = vec![0usize; ks.len()];
+    if replay.is_none() {
+        for (ki, (name, fails, src)) in ks.iter().enumerate() {
+            let vm = new_vm();
+            let (f0, v0, _) = measure(&vm);
+            let r1 = eval(&vm, src);
+            vm.collect();
+            let (f1, v1, m1) = measure(&vm);
+            let mut last = (f1, v1, m1);
+            let mut same = true;
+            for _ in 0..4 {
+                let r = eval(&vm, src);
+                same &= r == r1;
+                vm.collect();
+                last = measure(&vm);
+            }
+            leak[ki] = v1 - v0;
+            println!(
+                "L\t{}\t{}\t{}\t{}\t{}\t{}\t{}\t{}\t{}\t{}",
+                name, fails, f0, v0, f1, v1, last.1, m1, last.2, if same { r1 } else { format!("UNSTABLE {}", r1) }
+            );
+        }
+    } else {
+        for (ki, (_, _, src)) in ks.iter().enumerate() {
+            let vm = new_vm();
+            let (_, v0, _) = measure(&vm);
+            let _ = eval(&vm, src);
+            vm.collect();
+            leak[ki] = measure(&vm).1 - v0;
+        }
+    }
+    // 2. histories
+    let mut rng = gv::rng::Rng::new(seed, 66);
+    let n_hist = if thorough { 300 } else { 40 };
+    let histories: Vec<Vec<usize>> = match replay {
+        Some(h) => vec![h],
+        None => (0..n_hist)
+            .map(|i| {
+                let len = if i < 13 { i % 13 } else { rng.range(1, 12) as usize };
+                (0..len).map(|_| rng.below(ks.len() as u64) as usize).collect()
+            })
+            .collect(),
+    };
+    for h in histories {
+        let vm = new_vm();
+        let (f0, v0, _) = measure(&vm);
+        let mut diffs = vec![];
+        for (pos, ki) in h.iter().enumerate() {
+            let (name, fails, src) = &ks[*ki];
+            let got = eval(&vm, src);
+            if *fails {
+                vm.collect();
+            }
+            let fresh = new_vm();
+            let want = eval(&fresh, src);
+            if got != want {
+                diffs.push(format!("{}@{}: long-lived `{}` fresh `{}`", name, pos, got, want));
+            }
+        }
+        vm.collect();
+        let (f1, v1, _) = measure(&vm);
+        let steps: Vec<String> = h
+            .iter()
+            .map(|ki| {
+                if ks[*ki].1 {
+                    format!("(fail 1 {})", leak[*ki])
+                } else {
+                    "(ok 1 0)".to_string()
+                }
+            })
+            .collect();
+        println!(
+            "H\t{}\t{}\t{}\t{}\t{}",
+            h.iter().map(|k| k.to_string()).collect::<Vec<_>>().join(","),
+            steps.join(" "),
+            f1 as i64 - f0 as i64 + 1,
+            v1 as i64 - v0 as i64,
+            diffs.join(" ;; ")
+        );
+    }
+}
+
+fn run_child(seed: u64, tier: &str, replay: Option<&str>) -> (String, String) {
+    let input = match replay {
+        Some(r) => format!("{} {} {}", seed, tier, r),
+        None => format!("{} {}", seed, tier),
+    };
+    let ex = gv::child::run(&["--child", "hist"], input.as_bytes(), Duration::from_secs(3000));
+    match ex {
+        gv::child::Exit::Ok(o) => (o, "ok".into()),
+        other => {
+            let c = other.class();
+            match other {
+                gv::child::Exit::Code(_, o, e) | gv::child::Exit::Signal(_, o, e) => (o, format!("{} {}", c, e)),
+                gv::child::Exit::Timeout(o) => (o, c),
+                gv::child::Exit::Ok(o) => (o, c),
+            }
+        }
+    }
+}
+
+fn digest(out: &mut Out, text: &str, status: &str) {
+    let ks = kinds();
+    if status != "ok" {
+        out.oracle_fail(
+            "abort:history",
+            &format!("the history runner process died: {}", status.chars().take(300).collect::<String>()),
+            serde_json::json!({"kind": "history", "steps": ""}),
+        );
+    }
+    for l in text.lines() {
+        let f: Vec<&str> = l.split('\t').collect();
+        if f[0] == "L" && f.len() >= 11 {
+            let (name, fails) = (f[1], f[2] == "true");
+            let n = |i: usize| f[i].parse::<i64>().unwrap_or(0);
+            let (f0, v0, f1, v1, v5, m1, m5) = (n(3), n(4), n(5), n(6), n(7), n(8), n(9));
+            out.count(&format!("probe:{}", name));
+            out.class(format!("probe:{}:{}", name, f[10].split(':').next().unwrap_or("")));
+            if f[10].starts_with("UNSTABLE") || f[10].starts_with("panic") {
+                out.oracle_fail(
+                    &format!("history-differs:repeat:{}", name),
+                    &format!("evaluating `{}` five times on one VM does not give the same result every time: {}", name, f[10]),
+                    serde_json::json!({"kind": "history", "steps": vec![name; 5].join(",")}),
+                );
+            }
+            if fails != !f[10].starts_with("ok:") {
+                eprintln!("HARNESS: kind {} expected fails={} got {}", name, fails, f[10]);
+                std::process::exit(2);
+            }
+            if f1 != f0 {
+                out.oracle_fail(
+                    &format!("frame-leak:{}", name),
+                    &format!("after a failed evaluation ({}) the thread has {} frames instead of {}", name, f1, f0),
+                    serde_json::json!({"kind": "history", "steps": name}),
+                );
+            }
+            if v1 > v0 {
+                out.oracle_fail(
+                    &format!("stack-leak:{}", name),
+                    &format!(
+                        "after a failed evaluation ({}) and collect() {} values of the failed run are still on the value stack ({} after five runs)",
+                        name, v1 - v0, v5 - v0
+                    ),
+                    serde_json::json!({"kind": "history", "steps": name}),
+                );
+            }
+            if m5 - m1 >= 4 * 256 && fails {
+                out.oracle_fail(
+                    &format!("memory-leak:{}", name),
+                    &format!(
+                        "every further failed evaluation ({}) leaves memory that collect() does not reclaim: {} bytes after one run, {} after five",
+                        name, m1, m5
+                    ),
+                    serde_json::json!({"kind": "history", "steps": name}),
+                );
+            }
+        } else if f[0] == "H" && f.len() >= 6 {
+            let hist: Vec<usize> = f[1].split(',').filter_map(|x| x.parse().ok()).collect();
+            let names: Vec<&str> = hist.iter().map(|k| ks[*k].0).collect();
+            out.count(&format!("history-len:{}", hist.len()));
+            let nfail = hist.iter().filter(|k| ks[**k].1).count();
+            if nfail > 0 && nfail < hist.len() {
+                out.class(format!("hist:{}", names.join(",")));
+            }
+            let req = format!("hist real ({})", f[2]);
+            let payload = format!("(frames {} values {})", f[3], f[4]);
+            if names.iter().any(|n| *n == "stack-overflow" || *n == "oom") {
+                // what these leave depends on how full the stack / heap already is: outside the model's fragment
+                out.count("skipped-correspondence:history-with-overflow-or-oom");
+            } else {
+                if out.n_cases % 17 == 0 {
+                    out.sample(serde_json::json!({"request": req, "impl": payload, "history": names}));
+                }
+                out.case(&req, &payload);
+            }
+            if !f[5].is_empty() {
+                // attribute to the failing kind (earlier in the history) that leaves most on the stack
+                let first = f[5].split(" ;; ").next().unwrap_or("");
+                let pos: usize = first
+                    .split('@')
+                    .nth(1)
+                    .and_then(|s| s.split(':').next())
+                    .and_then(|s| s.parse().ok())
+                    .unwrap_or(0);
+                let culprit = hist[..pos]
+                    .iter()
+                    .filter(|k| ks[**k].1)
+                    .map(|k| ks[*k].0)
+                    .find(|n| *n == "stack-overflow")
+                    .or_else(|| hist[..pos].iter().rev().filter(|k| ks[**k].1).map(|k| ks[*k].0).next())
+                    .unwrap_or("none");
+                out.oracle_fail(
+                    &format!("history-differs:after:{}", culprit),
+                    &format!(
+                        "an evaluation on a VM that had failed evaluations before gives a different result than on a fresh VM: {} (history {})",
+                        first,
+                        names.join(",")
+                    ),
+                    serde_json::json!({"kind": "history", "steps": f[1]}),
+                );
+            }
+        }
+    }
+}
+
+pub fn run(args: &Args, out: &mut Out) {
+    let (text, status) = run_child(args.seed, &args.tier, None);
+    digest(out, &text, &status);
+}
+
+pub fn replay(out: &mut Out, case: &serde_json::Value) {
+    let steps = case["steps"].as_str().unwrap_or("").to_string();
+    let ks = kinds();
+    // steps: comma separated kind indices or names
+    let idx: Vec<String> = steps
+        .split(',')
+        .filter(|s| !s.is_empty())
+        .map(|s| match s.parse::<usize>() {
+            Ok(i) => i.to_string(),
+            Err(_) => ks.iter().position(|k| k.0 == s).unwrap_or(0).to_string(),
+        })
+        .collect();
+    // a single failing kind: replay as "fail, then the same again" so that the probe logic applies
+    let (text, status) = if idx.len() == 1 {
+        run_child(1, "quick", None)
+    } else {
+        run_child(1, "quick", Some(&idx.join(",")))
+    };
+    println!("{}", text);
+    digest(out, &text, &status);
+}
